@@ -6,6 +6,9 @@ From Servitor.Facts Require Import TermFacts.
 
 (* a terminal shows each cell's letter with exactly the attributes named in the cell's prefix and
    is back in the neutral state after every cell *)
+From Servitor Require Import Mime Pub.
+From Servitor.Facts Require Import HtmlFacts MarkupFacts PubFacts.
+
 Theorem display_wf : forall cs : list cell, wf_cells cs ->
   display (collapse cs) = (map (fun c => (letter c, cell_attrs c)) cs, []).
 Proof. exact display_wf_fact. Qed.
@@ -126,3 +129,9 @@ Example c14_example :
   display (apply (apply [97; 10; 98]%N [49]%N) [52]%N)
   = ([(97, [[52]; [49]]); (10, []); (98, [[52]; [49]])]%N, []).
 Proof. vm_compute. reflexivity. Qed.
+
+(* the full text, preview and name of posts, profiles and error items are good (see C01: post_string_good ...), and good text is neutral *)
+Theorem item_safe_neutral :
+  forall t : text, good t -> safe_b t = true /\ neutral_b t = true.
+Proof. exact item_safe_neutral_fact. Qed.
+Print Assumptions item_safe_neutral.
